@@ -1,0 +1,20 @@
+//go:build verif
+
+// Machine-checked contracts for package syntax (read by /verif/govc).
+//
+// C01: the two custom statement parsers of the module (`describe`, `before_*`/`after_*` hooks)
+// report every failure as a *parser.ParseError (possibly wrapped), like the parser's own methods.
+
+package syntax
+
+//@ import parser "github.com/ysugimoto/falco/v2/parser"
+//@ import lexer "github.com/ysugimoto/falco/v2/lexer"
+//@ func (*DescribeParser).Parse [C01]
+//@   requires p != nil && okP(p) && p.curToken != nil && p.peekToken != nil
+//@   loop * invariant okP(p) && p.tk == old(p.tk) && p.curToken != nil && p.peekToken != nil
+//@   ensures [parser-stays-ok C01] okP(p) && p.tk == old(p.tk) && p.curToken != nil && p.peekToken != nil
+//@   ensures [error-is-a-parse-error C01] err != nil ==> is(err, *parser.ParseError) || is(cause(err), *parser.ParseError)
+//@ func (*HookParser).Parse [C01]
+//@   requires p != nil && okP(p) && p.curToken != nil && p.peekToken != nil
+//@   ensures [parser-stays-ok C01] okP(p) && p.tk == old(p.tk) && p.curToken != nil && p.peekToken != nil
+//@   ensures [error-is-a-parse-error C01] err != nil ==> is(err, *parser.ParseError) || is(cause(err), *parser.ParseError)
